@@ -111,30 +111,32 @@ def checkField (toks : List String) (cs : Classes) (lib : Lib) (className : Stri
     | none => σ
   | _ => σ
 
+/-- which library's `createElement` a call goes to, and how the callee is written: `e(…)` for a local that stands for it,
+`Roact.createElement(…)` itself; `before` = the suffixes in front of the call suffix -/
+def targetOf (defs : List (String × Lib)) (p : Prefix) (before : List Suffix) : Option (Lib × String) :=
+  match before, p with
+  | [], .name n => (defs.find? (·.1 = n.text)).map fun d => (d.2, n.text)
+  | [s], .name n => (isCreateElement p [s]).map fun l => (l, n.text ++ ".createElement")
+  | _, _ => none
+
+/-- the arguments of a recognised call: a class name, then (if the class is known) a table of properties -/
+def checkArgs (toks : List String) (cs : Classes) (σ : St) (lib : Lib) (createExpr : String) (args : List Expr) : St :=
+  match args with
+  | .str t _ literal :: rest =>
+    match get cs literal with
+    | none => { σ with unknown := σ.unknown ++ [{ range := ⟨t.idx, t.idx⟩, message := "`" ++ literal ++ "` is not a valid class" }] }
+    | some cls =>
+      match rest with
+      | .tbl _ fields :: _ => fields.toList.foldl (checkField toks cs lib literal cls createExpr) σ
+      | _ => σ
+  | _ => σ
+
 /-- `visit_function_call` -/
 def visitCall (toks : List String) (cs : Classes) (σ : St) (c : FCall) : St :=
   match c with
   | .mk _ p ss =>
-    let all := ss.toList
-    let callSuffix := all.getLast?
-    let before := all.dropLast
-    -- which library's createElement is called, and how the call is written
-    let target : Option (Lib × String) :=
-      match before, p with
-      | [], .name n => (σ.defs.find? (·.1 = n.text)).map fun d => (d.2, n.text)
-      | [s], .name n => (isCreateElement p [s]).map fun l => (l, n.text ++ ".createElement")
-      | _, _ => none
-    match target, callSuffix with
-    | some (lib, createExpr), some (.args _ (.parens _ args)) =>
-      match args.toList with
-      | .str t _ literal :: rest =>
-        match get cs literal with
-        | none => { σ with unknown := σ.unknown ++ [{ range := ⟨t.idx, t.idx⟩, message := "`" ++ literal ++ "` is not a valid class" }] }
-        | some cls =>
-          match rest with
-          | .tbl _ fields :: _ => fields.toList.foldl (checkField toks cs lib literal cls createExpr) σ
-          | _ => σ
-      | _ => σ
+    match targetOf σ.defs p ss.toList.dropLast, ss.toList.getLast? with
+    | some (lib, createExpr), some (.args _ (.parens _ args)) => checkArgs toks cs σ lib createExpr args.toList
     | _, _ => σ
 
 /-- `visit_local_assignment`: names initialised with `Roact.createElement` / `React.createElement` -/
